@@ -67,3 +67,23 @@ def register(reg):
         ],
         raises={},
     )
+
+    # ---- the default (string / path) converter: what is built is read back by the server as the same text
+    BaseC = reg.model("BaseConverter", cls="werkzeug/routing/converters.py:BaseConverter", fields={})
+
+    def _replay_to_url(reg_, c, inputs):
+        from pyvc import runtime
+        conv = runtime.import_real("werkzeug/routing/converters.py")
+        nc = runtime.NativeContract(reg_, c)
+        obj = object.__new__(conv.UnicodeConverter)
+        for v in [inputs.get("value", ""), "", "a b", "50%", "50%25 off", "%41", "x?y", "a/b", "é", "a;b", "100%%"]:
+            fails = nc.check_call(obj.to_url, [v], {}, {"self": obj, "value": v})
+            if fails:
+                return [f"(value {v!r}) " + f for f in fails]
+        return []
+    reg.contract(
+        "werkzeug/routing/converters.py:BaseConverter.to_url", prop=P, self_model=BaseC, params={"value": "str"}, returns="str",
+        modifies=[], replay=_replay_to_url,
+        ensures=["uf_unquote(result) == value"],
+        raises={},
+    )
